@@ -376,6 +376,15 @@ func (p *Program) buildFnUses() {
 	}
 }
 
+// UsedAsValue reports whether fn is ever used as a function value (closure, table entry, callback)
+// rather than only called directly.
+func (p *Program) UsedAsValue(fn *ssa.Function) bool {
+	if p.fnUses == nil {
+		p.buildFnUses()
+	}
+	return fn.Parent() != nil || len(p.fnUses[fn]) > 0
+}
+
 // downwardCreators: if every place where c becomes a function value hands that value straight down
 // as an argument of a static call whose parameter is only ever invoked (or handed down the same way,
 // two levels) — or calls it on the spot — the value cannot outlive the activation that created it.
